@@ -245,12 +245,42 @@ theorem utf8_4 (c : Nat) (h1 : 0x10000 ≤ c) (h2 : c < 0x110000) :
     congr 2; omega
 
 
+theorem decode_noPct : ∀ bs : Bytes, (∀ b ∈ bs, b ≠ Percent.PCT) → Percent.decode bs = bs := by
+  intro bs
+  induction bs with
+  | nil => intro _; simp [Percent.decode]
+  | cons b bs ih =>
+    intro h
+    rw [Percent.decode_cons_ne b bs (h b (by simp)), ih (fun x hx => h x (by simp [hx]))]
+
+theorem digit_ne_pct (b : UInt8) (h : IsDigit b) : b ≠ Percent.PCT := by
+  rintro rfl
+  revert h
+  decide
+
+theorem show_noPct (z : Int) : Percent.decode (showInt z) = showInt z := by
+  apply decode_noPct
+  cases z with
+  | ofNat n =>
+    obtain ⟨ds, he, _, hdig, _⟩ := natDigits_spec (n + 1) n [] (by omega)
+    simp only [showInt, he, List.append_nil]
+    exact fun b hb => digit_ne_pct b (hdig b hb)
+  | negSucc n =>
+    obtain ⟨ds, he, _, hdig, _⟩ := natDigits_spec (n + 2) (n + 1) [] (by omega)
+    simp only [showInt, he, List.append_nil]
+    intro b hb
+    rcases List.mem_cons.mp hb with rfl | hb'
+    · decide
+    · exact digit_ne_pct b (hdig b hb')
+
 /-- the driver's std models satisfy everything `roundtrip_struct` assumes -/
 theorem prims_ok : PrimsOK prims where
   pct := Percent.decode_encode
   intU := parse_show_U
   intS := parse_show_S
   intUtf8 := show_utf8
+  pctInt := show_noPct
+  pctBool := ⟨decode_noPct _ (by decide), decode_noPct _ (by decide)⟩
   chr := by
     intro c hc
     by_cases h1 : c < 0x80
